@@ -26,6 +26,14 @@ T = {
  "C18": ("theorem: checked = unchecked semantics (C14) so profiles cannot differ in meaning; tie: same corpus in 2 (quick) / 8 (thorough) build configurations vs model; other targets not covered (partial)", "Lean proof + multi-configuration correspondence"),
  "C19": ("theorem: frame property of a product of model instances under any schedule; tie: interleaved multi-instance runs on 2–8 OS threads vs solo runs; real scheduler nondeterminism sampled (partial)", "Lean frame theorem + interleaving correspondence"),
 }
+EXT = {"C01", "C04", "C05", "C06", "C07", "C08", "C09"}
+EXT_TEXT = (" In addition the translated functions of rand_xoshiro / rand_xorshift (next_u32, next_u64, fill_bytes, jump, long_jump, "
+            "from_seed, seed_from_u64) are regenerated from /repo's current source as Lean definitions on every run (tools/rs2lean.py) "
+            "and proved equal to the model for all inputs (ExtTie.* obligations); when one no longer checks, z3 compares the current "
+            "with the pinned source (tools/srcdiff.py) to produce a failing input.")
+EXT_NOTE = ("; for the translated functions the tie is a kernel-checked theorem about definitions generated by the translator "
+            "tools/rs2lean.py (trusted, cross-checked by an independent interpreter tools/symexec.py); z3 is used only to search for "
+            "failing inputs and to recognise behaviour-preserving rewrites, never as a proof obligation")
 def main():
     checks = []
     for pid, (text, tech) in sorted(T.items()):
@@ -36,15 +44,20 @@ def main():
         if not real:
             text = "[theorems not landed yet: only the correspondence check runs] " + text
             tech = "model/code correspondence check (Lean theorems pending)"
+        note = NOTE
+        if pid in EXT:
+            text += EXT_TEXT
+            tech += " + translator-regenerated correspondence theorems (rs2lean)"
+            note = NOTE + EXT_NOTE
         checks.append(dict(property_id=pid, quick_cmd=f"python3 tools/check.py {pid} --tier quick",
             thorough_cmd=f"python3 tools/check.py {pid} --tier thorough", evidence_file=f"evidence/{pid}.json",
             replay_cmd_template=f"python3 tools/check.py {pid} --replay {{path}}", engine="lean-proof+tie",
-            level_claimed=dict(category=cat, text=text, design_ref=f"DESIGN.md §7 {pid}"), level_note=NOTE, technique=tech))
+            level_claimed=dict(category=cat, text=text, design_ref=f"DESIGN.md §7 {pid}"), level_note=note, technique=tech))
     m = dict(version=1, setup_cmd="./setup.sh",
         hooks=dict(guard="rngs_verif", enable='RUSTFLAGS="--cfg rngs_verif --check-cfg cfg(rngs_verif)" cargo build --offline (harness crate, path deps on /repo crates)',
                    baseline_off_cmd="cd /repo && cargo test --workspace --no-fail-fast --offline", source_commits=["d9042f5"], add_only=True),
         engines=[dict(name="lean-proof+tie", path="tools/check.py", serves_properties=sorted(T),
-                      kind_free_text="Lean 4 theorems about a hand-written executable model (lean/Rngs) + differential correspondence check of the model (lean modeldriver) and the real crates (harness) on every run")],
+                      kind_free_text="Lean 4 theorems about a hand-written executable model (lean/Rngs) + two ties of the model to /repo's current tree on every run: (1) differential correspondence check of the model (lean modeldriver) and the real crates (harness); (2) for rand_xoshiro / rand_xorshift a translator (tools/rs2lean.py) regenerates Lean definitions from the source and Lean proves them equal to the model (tools/exttie.py)")],
         checks=checks, not_applicable=[],
         notes="fix commits in /repo: 5da9a78 (C14), abe6ce0 (C13); known finding: C16 (known_findings.json)")
     json.dump(m, open(os.path.join(V, "MANIFEST.json"), "w"), indent=1)
